@@ -237,6 +237,40 @@ class Check:
             raise MachineryError(f"TLC failed on {module} {cfg}: {r.error}\n{r.out[-1500:]}")
         return r
 
+    def apalache(self, module: str, inv: str, init: str = "Init", cinit: str | None = None, expect_error: bool = False,
+                 timeout: int = 900) -> bool:
+        """Unbounded lemma of a specification (spec/unbounded/<module>.tla) decided by Apalache at length 0: the initial
+        states are all integer valuations in the lemma's precondition, `inv` is the lemma.  With expect_error the run is
+        a vacuity guard: Apalache has to refute `inv`.  A timeout / tool failure is a note, not a verdict (the bounded TLC
+        run of the same definitions stands on its own); a wrong outcome is a machinery failure."""
+        out = tempfile.mkdtemp(prefix="apa-", dir=self.work)
+        src = os.path.join(SPEC, "unbounded")
+        for f in os.listdir(src):          # run on a scratch copy: the tool leaves directories next to the module
+            if f.endswith(".tla"):
+                shutil.copy(os.path.join(src, f), out)
+        cmd = ["apalache-mc", "check", f"--init={init}", f"--inv={inv}", "--length=0", f"--out-dir={out}/out"]
+        if cinit:
+            cmd.append(f"--cinit={cinit}")
+        cmd.append(module + ".tla")
+        t = time.time()
+        try:
+            p = subprocess.run(cmd, cwd=out, capture_output=True, text=True, timeout=timeout)
+        except (subprocess.TimeoutExpired, FileNotFoundError) as ex:
+            self.note(f"apalache {module} {inv}: not decided ({type(ex).__name__})")
+            return False
+        finally:
+            shutil.rmtree(out, ignore_errors=True)
+        ok = "The outcome is: NoError" in p.stdout
+        err = "The outcome is: Error" in p.stdout
+        self.cov["tlc_runs"].append({"module": module, "cfg": f"apalache --init={init} --inv={inv} --length=0", "label": "unbounded-lemma" if not expect_error else "unbounded-lemma-vacuity-guard",
+                                     "ok": ok, "violated": [inv] if err else [], "wall_s": round(time.time() - t, 1)})
+        if not ok and not err:
+            self.note(f"apalache {module} {inv}: not decided ({p.stdout[-300:]!r})")
+            return False
+        if expect_error != err:
+            raise MachineryError(f"apalache {module} {inv}: expected {'a counterexample' if expect_error else 'NoError'}\n{p.stdout[-1500:]}")
+        return True
+
     def model_check(self, module: str, cfg: str, workers: int | None = None, big: bool = False,
                     must_cover: list | None = None, timeout: int = 3600, env: dict | None = None,
                     extra: list | None = None) -> TLCResult:
